@@ -292,3 +292,43 @@ Proof.
   replace (it_id (index_tag_of d) =? 0) with false by lia. rewrite Hs, Hst, Hk. cbn [negb]. rewrite Bool.andb_false_r.
   change (marshal_into 8 (FPrim p) st0 ft fv) with (prim_marshal (ps_kind p) ft fv). rewrite Hm. reflexivity.
 Qed.
+
+(* what a keepzero zero field reads back as: for every documented cell the zero value of the Go type, written because of
+   keepzero, comes back as zero_back k t - the zero value itself for plain targets (a Numeric field renders its 0, so a
+   string target reads "0"), a pointer to it for pointer targets (Unmarshal allocates), the field object with its zero
+   state for library targets - and that value marshals to the very state the zero value marshalled to (on the wire the
+   two are the same message) *)
+Definition zero_state (k : fkind) : fstate :=
+  match k with KString => SString [] | KNumeric => SNumeric 0 | KBinary => SBinary [] | KHex => SHex [] end.
+
+Definition zero_back (k : fkind) (t : gty) : gval :=
+  match k, t with
+  | KNumeric, TStr => VStr (itoa 0)
+  | KNumeric, TPtr TStr => VPtr (Some (VStr (itoa 0)))
+  | _, TPtr TBytes => VPtr (Some (VBytes (Some [])))
+  | _, TPtr t' => VPtr (Some (g_zero t'))
+  | _, TLib k' => VLib (Some (zero_state k'))
+  | _, _ => g_zero t
+  end.
+
+Lemma keepzero_readback k t : documented k t = true ->
+  exists st, prim_marshal k t (g_zero t) = Ok st /\ (forall cur, prim_unmarshal st t cur = Ok (zero_back k t)) /\
+             prim_marshal k t (zero_back k t) = Ok st.
+Proof.
+  destruct k; destruct t as [| | | |t'|k'|fs]; try discriminate; try (destruct t' as [| | | |t2|k2|fs2]; try discriminate); try (destruct k'; try discriminate);
+    intros _; eexists; (split; [reflexivity|split; [intros cur; reflexivity|reflexivity]]).
+Qed.
+
+(* the only cells where the value read back differs from the zero value by more than a pointer allocation *)
+Fixpoint g_deref (v : gval) : gval :=
+  match v with
+  | VPtr (Some v') => g_deref v'
+  | VBytes (Some []) => VBytes None
+  | _ => v
+  end.
+Lemma zero_back_is_zero k t : documented k t = true -> k <> KNumeric \/ (t <> TStr /\ t <> TPtr TStr) ->
+  match t with TLib k' => zero_back k t = VLib (Some (zero_state k')) | TPtr t' => g_deref (zero_back k t) = g_zero t' | _ => zero_back k t = g_zero t end.
+Proof.
+  destruct k; destruct t as [| | | |t'|k'|fs]; try discriminate; try (destruct t' as [| | | |t2|k2|fs2]; try discriminate); try (destruct k'; try discriminate);
+    intros _ [H|[H1 H2]]; try reflexivity; try congruence.
+Qed.
